@@ -31,13 +31,14 @@ type Cfg struct {
 	Rows    int    `json:"rows"`
 	Cols    int    `json:"cols"`
 
-	Extra      bool  `json:"extra,omitempty"`      // histo -x; table -x (row and column totals)
-	Stacked    bool  `json:"stacked,omitempty"`    // bargraph -s
-	NoTruncate bool  `json:"notruncate,omitempty"` // spark --notruncate
-	FixMin     bool  `json:"fixmin,omitempty"`     // heatmap --min
-	FixMax     bool  `json:"fixmax,omitempty"`     // heatmap --max
-	Min        int64 `json:"min,omitempty"`
-	Max        int64 `json:"max,omitempty"`
+	Sort       string `json:"sort,omitempty"`       // histo --sort (default: value)
+	Extra      bool   `json:"extra,omitempty"`      // histo -x; table -x (row and column totals)
+	Stacked    bool   `json:"stacked,omitempty"`    // bargraph -s
+	NoTruncate bool   `json:"notruncate,omitempty"` // spark --notruncate
+	FixMin     bool   `json:"fixmin,omitempty"`     // heatmap --min
+	FixMax     bool   `json:"fixmax,omitempty"`     // heatmap --max
+	Min        int64  `json:"min,omitempty"`
+	Max        int64  `json:"max,omitempty"`
 }
 
 type Case struct {
@@ -57,6 +58,7 @@ type report struct {
 	outcome    []string
 	hung       bool
 	notDrawn   int // rows the command asked for that the final render did not draw
+	otherRow   int // lines that show another key (with its correct number) than the one asked for
 }
 
 func (r *report) fail(sig, format string, a ...any) {
@@ -243,7 +245,11 @@ func runHisto(c Case, rep *report) {
 	writer.ShowPercentage = c.Cfg.Extra
 	writer.Scaler = scalerOf(c.Cfg)
 	writer.Formatter = formatterOf(c.Cfg)
-	sorter := sorterOf("value")
+	sortName := c.Cfg.Sort
+	if sortName == "" {
+		sortName = "value" // the command's default
+	}
+	sorter := sorterOf(sortName)
 	const atLeast = int64(0)
 
 	var shown []aggregation.MatchPair
@@ -278,18 +284,31 @@ func runHisto(c Case, rep *report) {
 		line := vt.Get(i)
 		v := visible(line)
 		key := visible(it.Name)
-		if !strings.HasPrefix(v, key) {
-			// the line was drawn by the final render, but for another item
-			rep.fail("C14/histo/line-shows-another-row", "line %d %q was drawn by the final render but does not start with key %q (value %d)", i, v, key, it.Item.Count())
+		if !histoLineShows(v, key, want(c.Cfg, it.Item.Count())) {
+			// Either the number of this row is wrong, or the final render drew
+			// the line for another (earlier) item. The statement does not say
+			// which rows must be shown, but the number on the line must be the
+			// aggregated number of the key the line names.
+			other := false
+			for _, o := range counter.Items() {
+				if o.Name != it.Name && histoLineShows(v, visible(o.Name), want(c.Cfg, o.Item.Count())) {
+					other = true
+					break
+				}
+			}
+			switch {
+			case other:
+				rep.otherRow++
+			case key != "" && strings.HasPrefix(v, key+" "):
+				rep.fail("C14/histo/number-differs-from-formatter", "line %d %q: want number %q after the key (value %d)", i, v, want(c.Cfg, it.Item.Count()), it.Item.Count())
+			default:
+				rep.fail("C14/histo/stale-row-shows-outdated-number", "line %d %q was drawn by the final render; it should show key %q (value %d), and the number it shows is not the aggregated number of any other key", i, v, key, it.Item.Count())
+			}
 			continue
 		}
 		judged++
 		rest := strings.TrimLeft(v[len(key):], " ")
 		num := want(c.Cfg, it.Item.Count())
-		if !strings.HasPrefix(rest, num) || (len(rest) > len(num) && rest[len(num)] != ' ') {
-			rep.fail("C14/histo/number-differs-from-formatter", "line %d %q: want number %q after the key (value %d)", i, v, num, it.Item.Count())
-			continue
-		}
 		_, bar := trailingBar(rest[len(num):], c.Cfg.Unicode)
 		cells, measure, ok := barMeasure(bar, c.Cfg.Unicode)
 		if !ok {
@@ -312,6 +331,18 @@ func runHisto(c Case, rep *report) {
 	if len(rep.findings) > 0 {
 		rep.findings[0].detail += "\nscreen:\n" + fmtLines(screen(vt))
 	}
+}
+
+// histoLineShows: the visible line is "key, spaces, number, (space ... | end)".
+func histoLineShows(v, key, num string) bool {
+	if !strings.HasPrefix(v, key) {
+		return false
+	}
+	rest := strings.TrimLeft(v[len(key):], " ")
+	if key != "" && len(rest) == len(v)-len(key) {
+		return false // no space between key and number: a longer key
+	}
+	return strings.HasPrefix(rest, num) && (len(rest) == len(num) || rest[len(num)] == ' ')
 }
 
 // ------------------------------------------------------------------ bargraph
